@@ -1,7 +1,7 @@
 #!/bin/bash
 # usage: seed_eval.sh <ID> <demo-target-dir (relative to worktree)> <go test -run regex> <pkgs to run existing tests on, quoted> [check ids...]
 # Verifies a seeded change in its scratch worktree, then runs the /verif checks against it applied to /repo.
-id=$1; demodir=$2; rx=$3; pkgs=$4; shift 4; checks=${@:-$id}
+id=$1; demodir=$2; rx=$3; pkgs=$4; shift 4; checks=${@:-${id:0:3}}
 W=/tmp/seed-$id; S=$W/SEED
 export GOPROXY=off GOFLAGS=-mod=mod
 cd $W || exit 2
@@ -16,9 +16,11 @@ echo -n "   demo with change: "; go test -vet=off -count=1 -run "$rx" ./$demodir
 rm -f $demodir/zz_seed_demo*_test.go
 echo "   existing tests with change ($pkgs):"; go test -vet=off -count=1 $pkgs 2>&1 | grep -E "^(--- FAIL|\s+--- FAIL|FAIL|ok)" | grep -v "no test files" | cut -c1-110 | sed 's/^/      /'
 git checkout -q -- .
-mv $W/../SEED-$id-tmp $S
+# the checks are run against the scratch worktree with the patch applied (never against /repo), in a work directory of their own
+git apply $W/../SEED-$id-tmp/patch.diff
 cd /verif
-git -C /repo apply $S/patch.diff || { echo "does not apply to /repo"; exit 1; }
-for c in $checks; do echo -n "   ./check $c (quick): "; ./check $c 2>&1 | grep -E "^(OK|VIOLATION|INFRA)|violation key" | head -3 | cut -c1-170 | tr '\n' '|'; echo; done
-git -C /repo checkout -q -- .
-git -C /repo status --short | head -3
+WD=/tmp/evalwork-$id; mkdir -p $WD/evidence
+for c in $checks; do echo -n "   ./check $c (quick, VERIF_REPO=$W): "; VERIF_REPO=$W VERIF_WORKDIR=$WD VERIF_EVIDENCE_DIR=$WD/evidence ./check $c 2>&1 | grep -E "^(OK|VIOLATION|INFRA)|violation key" | sed "s|$WD/found/||" | head -4 | cut -c1-170 | tr '\n' '|'; echo; done
+git -C $W checkout -q -- .
+mv $W/../SEED-$id-tmp $S
+rm -rf $WD
